@@ -19,7 +19,8 @@
    Any number of rows, any degree, parallel edges, self loops, isolated vertices; the explicit edge count is
    arbitrary.  NOT modelled: CSV / gzip decoding and line counting (exercised on real files by the stream). *)
 From Coq Require Import List Arith Bool Permutation String.
-From RC Require Import Base.Res Model.CompactMap Model.Loader Proofs.CompactMap Proofs.Loader.
+From RC Require Import Base.Num Base.Res Model.CompactMap Model.Loader Model.Units Model.LoaderOps
+  Proofs.CompactMap Proofs.Loader Proofs.LoaderOps.
 Import ListNotations.
 
 Section C15.
@@ -186,6 +187,32 @@ Section C15.
   Qed.
 End C15.
 
+(* the read-back API of the application (SearchAppGraphOps, behind the graph_* bindings): on every successful
+   load whose edge ids are the row indices the origin / destination / incident-edge queries answer what the rows
+   say, the length of edge i in unit u is DistanceUnit::convert(Meters -> u) of the LISTED length (C09: within
+   0.1 % of the physical factor), no unit / meters return the listed length itself, and an id that is not a row
+   is an error *)
+Section C15Ops.
+  Context {N : Num} {C : Type}.
+  Theorem c15_graph_ops : forall (f : LD.files N C) ne nv g,
+    LD.graph_from_files f ne nv = Ok g -> LD.ids_are_rows (LD.f_edge_rows f) ->
+    (forall i, LO.get_edge_origin g i = rmap LD.e_src (LD.s_edge (LD.f_edge_rows f) i))
+    /\ (forall i, LO.get_edge_destination g i = rmap LD.e_dst (LD.s_edge (LD.f_edge_rows f) i))
+    /\ (forall i u, LO.get_edge_distance g i u
+                    = rmap (fun e => LO.in_unit u (LD.e_dist e)) (LD.s_edge (LD.f_edge_rows f) i))
+    /\ (forall v d, LO.get_incident_edge_ids g v d = map LD.e_id (LD.s_incident (LD.f_edge_rows f) v d)).
+  Proof. exact graph_ops_spec. Qed.
+  Theorem c15_graph_ops_errors_and_identity : forall (f : LD.files N C) ne nv g,
+    LD.graph_from_files f ne nv = Ok g -> LD.ids_are_rows (LD.f_edge_rows f) -> forall i,
+    (LD.s_edge (LD.f_edge_rows f) i = Err "EdgeNotFound"%string ->
+       LO.get_edge_origin g i = Err "EdgeNotFound"%string /\ LO.get_edge_destination g i = Err "EdgeNotFound"%string
+       /\ forall u, LO.get_edge_distance g i u = Err "EdgeNotFound"%string)
+    /\ (forall e, LD.s_edge (LD.f_edge_rows f) i = Ok e ->
+          LO.get_edge_distance g i None = Ok (LD.e_dist e)
+          /\ LO.get_edge_distance g i (Some Units.Meters) = Ok (LD.e_dist e)).
+  Proof. exact graph_ops_errors_and_identity. Qed.
+End C15Ops.
+
 (* per-edge tables are aligned with edge ids by row *)
 Section C15Tables.
   Context {L T : Type} (decode : nat -> L -> option T).
@@ -307,6 +334,8 @@ Print Assumptions c15_any_rows.
 Print Assumptions c15_out_of_range_end_points.
 Print Assumptions c15_n_edges_irrelevant.
 Print Assumptions c15_wfb_wf.
+Print Assumptions c15_graph_ops.
+Print Assumptions c15_graph_ops_errors_and_identity.
 Print Assumptions c15_tables_aligned.
 Print Assumptions c15_tables_aligned_header.
 Print Assumptions c15_table_all_or_nothing.
